@@ -578,6 +578,8 @@ func smallPrograms() []*concSpec {
 		// two keys colliding on one worker of two, LRU of one entry: evictions between the jobs
 		{G: grpSpec{Wrapped: true, N: 2, Cap: 1, Kind: kInt, Univ: []int64{1, 3}, InitL: [][2]int64{{1, 10}, {3, 30}}},
 			Jobs: []opSpec{{Op: opGet, K: 1}, {Op: opGet, K: 3}, {Op: opUpdate, K: 1, D: 7}, {Op: opGet, K: 1, Faults: []int{1}}}},
+		// a cached key grows past the whole LRU capacity (datum 405: a cache.Value of size 3, capacity 2) while a reader polls it
+		mk(2, 1, [][2]int64{{7, 5}}, []int64{7}, opSpec{Op: opGet, K: 7}, opSpec{Op: opUpdate, K: 7, D: 405}, opSpec{Op: opGet, K: 7, Faults: []int{1}}),
 		// upsert-then-load with a failing load, then a get that loads
 		mk(2, 1, nil, []int64{4}, opSpec{Op: opUpsertLoad, K: 4, D: 1, Faults: []int{0, 1}}, opSpec{Op: opGet, K: 4}, opSpec{Op: opDelete, K: 4, Faults: []int{1}}),
 	}
